@@ -28,7 +28,7 @@ def projection(obs, A, norm):
 def run(tier, seed):
     return st.run_structural(
         "C08", tier, seed, "ZeepVerif.Props.C08", "ZeepVerif/Audit/C08.lean",
-        [("gen", 300, 8000), ("gencollide", 40, 1000), ("gentopo", 150, 3000)], oracle, projection, CHECKER, extra_props=[("ZeepVerif.Props.C08Read", "ZeepVerif/Audit/C08Read.lean"), ("ZeepVerif.Props.C08All", "ZeepVerif/Audit/C08All.lean"), ("ZeepVerif.Props.CpxAll", "ZeepVerif/Audit/CpxAll.lean")],
+        [("gen", 300, 8000), ("gencollide", 40, 1000), ("gentopo", 150, 3000)], oracle, projection, CHECKER, extra_props=[("ZeepVerif.Props.C08Read", "ZeepVerif/Audit/C08Read.lean"), ("ZeepVerif.Props.C08All", "ZeepVerif/Audit/C08All.lean"), ("ZeepVerif.Props.CpxAll", "ZeepVerif/Audit/CpxAll.lean"), ("ZeepVerif.Props.C08Denote", "ZeepVerif/Audit/C08Denote.lean")],
         note_assumptions=["derivation chains of the generator: depth up to the number of complex types, bases before/after/in another file (DAG imports)",
                           "the reference order Spec.Ref.members (c08_ref_order)"],
         rule_note="The oracle looks at the derived structs only: ordered member list incl. namespaces (members of the base first, own elements, own attributes).")
